@@ -6,8 +6,9 @@
       `row = glyph_index / glyphs_per_row`, `char_x = (glyph_index - row * glyphs_per_row) *
       character width`, `char_y = row * character height` (`u32` products and difference),
       `char_x as i32`, `char_y as i32` (wrapping casts);
-    * `ImageRaw::draw_sub_image` (src/image/image_raw.rs l. 221-244) for the 1 bpp atlas: the
-      guard `top_left.x as u32 + width > image.width` (`u32` sums), `data_width()`,
+    * `ImageRaw::draw_sub_image` (src/image/image_raw.rs l. 221-246, as repaired by a083ac5) for
+      the 1 bpp atlas: the guard `u64::from(top_left.x as u32) + u64::from(width) >
+      u64::from(image.width)` (`u64` sums), `data_width()`,
       `initial_skip = y as usize * data_width + x as usize`, `row_skip = data_width - width`
       (`usize`); `ContiguousPixels::new` / `next` only subtract behind guards;
     * `line_elements` (src/mono_font/mono_text_style.rs l. 70-103): `width as i32`,
@@ -50,10 +51,10 @@ def atlasDataWidth (imgW : Nat) : Option Nat := EG.Chk.imageDataWidth 1 imgW
 def subImageSkips (imgW imgH : Nat) (a : Rect) : Option (Option (Nat × Nat)) :=
   if a.isZeroSized ∨ a.tl.x < 0 ∨ a.tl.y < 0 then pure none
   else do
-    let xr ← chkU32 (i32AsU32 a.tl.x + a.size.w)
+    let xr ← chkU64 (i32AsU32 a.tl.x + a.size.w)
     if xr > imgW then pure none
     else do
-      let yb ← chkU32 (i32AsU32 a.tl.y + a.size.h)
+      let yb ← chkU64 (i32AsU32 a.tl.y + a.size.h)
       if yb > imgH then pure none
       else do
         let dw ← atlasDataWidth imgW
